@@ -50,6 +50,35 @@ TRANSPARENT = {
     "core::fmt::Arguments::<'a>::new",
     "alloc::fmt::format",
     "core::hint::must_use",
+    # routing combinators: hand their receiver's payload (or nothing) to at most one closure, once
+    "core::result::Result::<T, E>::and_then",
+    "core::result::Result::<T, E>::map",
+    "core::result::Result::<T, E>::map_or_else",
+    "core::result::Result::<T, E>::map_or",
+    "core::result::Result::<T, E>::or_else",
+    "core::result::Result::<T, E>::unwrap_or_else",
+    "core::option::Option::<T>::and_then",
+    "core::option::Option::<T>::map",
+    "core::option::Option::<T>::map_or_else",
+    "core::option::Option::<T>::map_or",
+    "core::option::Option::<T>::or_else",
+    "core::option::Option::<T>::unwrap_or_else",
+    "core::option::Option::<T>::unwrap_or",
+    "core::result::Result::<T, E>::unwrap_or",
+    # prefixes / suffixes / sub-slices of the same string
+    "core::str::<impl str>::strip_prefix",
+    "core::str::traits::<impl core::ops::index::Index<I> for str>::index",
+    "core::str::<impl str>::get",
+    "core::str::<impl str>::split_at",
+    # forward iteration, lazily mapped
+    "core::slice::iter::<impl core::iter::traits::collect::IntoIterator for &'a [T]>::into_iter",
+    "<I as core::iter::traits::collect::IntoIterator>::into_iter",
+    "core::iter::traits::iterator::Iterator::map",
+    "<core::iter::adapters::map::Map<I, F> as core::iter::traits::iterator::Iterator>::find_map",
+    "<core::iter::adapters::map::Map<I, F> as core::iter::traits::iterator::Iterator>::next",
+    "core::iter::traits::iterator::Iterator::find_map",
+    "alloc::str::<impl [S]>::concat",
+    "alloc::slice::<impl [T]>::concat",
     # other ways to build the same string
     "alloc::string::String::new",
     "alloc::string::String::push_str",
@@ -65,6 +94,26 @@ TRANSPARENT = {
     "<core::slice::iter::Iter<'a, T> as core::iter::traits::iterator::Iterator>::find_map",
     "<core::slice::iter::Iter<'a, T> as core::iter::traits::iterator::Iterator>::next",
 }
+
+# sub-slicing: the result derives from the receiver only (the other arguments are positions)
+INDEXERS = {
+    "core::str::<impl str>::strip_prefix",
+    "core::str::traits::<impl core::ops::index::Index<I> for str>::index",
+    "core::str::<impl str>::get",
+    "core::str::<impl str>::split_at",
+}
+
+# which closure argument of a routing combinator runs on the failure / absent case
+FAILURE_ARG = {
+    "core::result::Result::<T, E>::map_or_else": 1,
+    "core::result::Result::<T, E>::or_else": 1,
+    "core::result::Result::<T, E>::unwrap_or_else": 1,
+    "core::option::Option::<T>::map_or_else": 1,
+    "core::option::Option::<T>::or_else": 1,
+    "core::option::Option::<T>::unwrap_or_else": 1,
+    "core::option::Option::<T>::ok_or_else": 1,
+}
+ROUTERS = {d for d in TRANSPARENT if d.startswith("core::result::Result::<T, E>::") or d.startswith("core::option::Option::<T>::")}
 
 # carriers that store (something derived from) their other arguments behind their first `&mut`
 BUILDERS = {"alloc::string::String::push_str", "alloc::string::String::push"}
@@ -272,17 +321,33 @@ class OFlow:
                 for ai, a in enumerate(t["args"]):
                     pl = a.get("c") or a.get("m")
                     insts = self.closure_insts(body["locals"][pl["l"]]["ty"]) if pl is not None and not pl["p"] else []
+                    fnitem = None
+                    if pl is None and isinstance(a.get("k"), dict) and isinstance(a["k"].get("v"), dict) and "fn" in a["k"]["v"]:
+                        # a crate function passed by name (`.and_then(Self::helper)`)
+                        fnitem = [i for i in self.by_key.get(a["k"]["v"].get("key"), []) if i.get("body") is not None]
                     if insts:
-                        clos.append((ai, insts))
+                        clos.append((ai, insts, True))
+                    elif fnitem:
+                        clos.append((ai, fnitem, False))
                     else:
                         others |= argo[ai]
-                for ai, insts in clos:
+                per_closure = []
+                for ai, insts, has_env in clos:
                     for ci in insts:
+                        sk = self.is_sink(ci)
+                        if sk is not None:
+                            ev = ("SINK", sk, site, [frozenset(others)] * ci["body"]["arg_count"], bi)
+                            clos_ret |= {("sink", sk, site)}
+                            sub_events.append(ev)
+                            per_closure.append((ai, ci["id"], [ev]))
+                            continue
                         s = self.summary(ci)
-                        cargs = [argo[ai]] + [others] * (ci["body"]["arg_count"] - 1)
+                        n_par = ci["body"]["arg_count"]
+                        cargs = ([argo[ai]] + [others] * (n_par - 1)) if has_env else ([others] * n_par)
                         sub = self._subst(s, cargs)
                         clos_ret |= sub[0]
                         sub_events.extend(sub[1])
+                        per_closure.append((ai, ci["id"], sub[1]))
                 for ai in range(len(argo)):
                     if mut_targets[ai]:
                         rest = set()
@@ -294,14 +359,16 @@ class OFlow:
                         elif d not in self.transparent:
                             write_back(ai, {("call", d)})
                         # other carriers (iterator advance) leave what is behind a &mut as it is
-                if d in self.transparent:
+                if d in INDEXERS:
+                    add(dest, (argo[0] if argo else set()) | clos_ret)
+                elif d in self.transparent:
                     add(dest, others | clos_ret)
                     if sub_events:
-                        events[(bi, "t")] = ("LOCAL", None, site, sub_events, bi)
+                        events[(bi, "t")] = ("LOCAL", None, site, sub_events, bi, [frozenset(a) for a in argo], d, per_closure)
                     # &mut arguments of carriers keep their origins
                 else:
                     add(dest, {("call", d)})
-                    events[(bi, "t")] = ("USE", d, site, [frozenset(a) for a in argo], bi, sub_events)
+                    events[(bi, "t")] = ("USE", d, site, [frozenset(a) for a in argo], bi, sub_events, per_closure)
         s = Summary()
         s.ret = frozenset(org.get(0, ()))
         s.param_out = [frozenset(org.get(i, set()) - {("param", i)}) for i in range(1, n + 1)]
@@ -333,17 +400,14 @@ class OFlow:
             return out
 
         def sub_event(e):
-            if e[0] == "LOCAL":
-                tail = list(e[4:])
-                if len(tail) >= 2:
-                    tail[1] = [frozenset(sub(a)) for a in tail[1]]
-                return ("LOCAL", e[1], e[2], [sub_event(x) for x in e[3]]) + tuple(tail)
-            if e[0] == "USE":
-                tail = list(e[4:])
-                if len(tail) >= 2:
-                    tail[1] = [sub_event(x) for x in tail[1]]
-                return (e[0], e[1], e[2], [frozenset(sub(a)) for a in e[3]]) + tuple(tail)
-            return (e[0], e[1], e[2], [frozenset(sub(a)) for a in e[3]]) + tuple(e[4:])
+            # events are nested tuples/lists; every frozenset in them is a set of origin tokens
+            if isinstance(e, frozenset):
+                return frozenset(sub(e))
+            if isinstance(e, tuple):
+                return tuple(sub_event(x) for x in e)
+            if isinstance(e, list):
+                return [sub_event(x) for x in e]
+            return e
 
         return sub(s.ret), [sub_event(e) for e in s.events]
 
